@@ -1367,6 +1367,26 @@ fn nat_construct(ctx: &mut Ctx) {
                         count_case(ctx, &[&o]);
                         if let Some(r) = ctx.guarded(&nat_attrs($name, "panic"), || json!({"op": $name, "value": format!("{v:#x}")}), || Natural::from(x)) {
                             judge_nat(ctx, $name, &[&o], Value::Null, &r, Some(&exp));
+                            // the converted value must also behave like the number in what follows
+                            let case = || json!({"op": concat!($name, " then use"), "value": format!("{v:#x}")});
+                            let e64 = u64::try_from(v).ok();
+                            if let Some(g) = ctx.guarded(&nat_attrs("try_into_u64", "panic"), case, || u64::try_from(&r).ok()) {
+                                if g != e64 {
+                                    ctx.viol(nat_attrs("try_into_u64", "wrong_value_after_from"), case(), &format!("u64::try_from(&Natural::from({v:#x} as {})) = {g:x?}, expected {e64:x?}", stringify!($t)));
+                                }
+                            }
+                            if let Some(g) = ctx.guarded(&nat_attrs("try_into_u128", "panic"), case, || u128::try_from(&r).ok()) {
+                                if g != Some(v) {
+                                    ctx.viol(nat_attrs("try_into_u128", "wrong_value_after_from"), case(), &format!("u128::try_from(&Natural::from({v:#x} as {})) = {g:x?}", stringify!($t)));
+                                }
+                            }
+                            for addend in [1u64, 2, 1 << 20, u64::MAX] {
+                                let ao = Op { name: format!("{addend:#x}"), v: Big::from_u64(addend) };
+                                let Some(r2) = ctx.guarded(&nat_attrs($name, "panic"), case, || Natural::from(x)) else { continue };
+                                if let Some(sum) = add_guard(ctx, "add", &[&o, &ao], r2, Natural::from(addend)) {
+                                    judge_nat(ctx, "add", &[&o, &ao], json!({"left_operand_made_by": $name}), &sum, Some(&Val::of_big(&o.v.add(&ao.v))));
+                                }
+                            }
                         }
                     }
                 };
